@@ -54,7 +54,18 @@ CallsOK(e, Fr, Gr) ==
   ELSE IF e.op \in GrouperOps THEN (Gr[e.recv + 1].err => e.calls = 0)
   ELSE (Fr[e.recv + 1].err => e.calls = 0)
 
-JudgeOp(e, Fr, Gr) ==
+\* An enum column whose value table holds the same string twice (built-in ToUpper on "a", "A"): two
+\* codes mean the same string. Operations that go by the code (comparisons, sorting, grouping, hashing)
+\* are not specified on such a frame; those that go by the strings are (C09: Equals, views, writers).
+AmbFrame(f) == ~f.err /\ ~IsUnspec(f) /\ \E c \in 1..Len(f.cols) : f.cols[c].typ = "enum" /\ HasDup(f.cols[c].vals)
+AmbSafeOps == {"New", "Select", "Drop", "Slice", "Copy", "WithRowNums", "Rebuild", "Apply", "Equals", "SliceObs",
+               "Scribble", "View", "ToCSV", "ToJSON", "String", "ReadCSV", "ReadJSON", "CsvScan", "ReadSQL", "QFrames", "Aggregate"}
+AmbRes(e) ==
+  IF e.op = "GroupBy" THEN Res(TRUE, FALSE, TRUE, <<>>, <<>>, <<ErrGrouper>>, <<e.gdig>>)
+  ELSE IF e.op \in {"Filter", "Sort", "Distinct", "FilteredApply", "Eval"} THEN Res(TRUE, FALSE, TRUE, <<ErrFrame>>, <<e.dig>>, <<>>, <<>>)
+  ELSE PlainU("unspec", TRUE)
+
+JudgeOp1(e, Fr, Gr) ==
   LET R == Fr[e.recv + 1] IN
   CASE e.op = "New"    -> Det(e, NewSem(e.a))
     [] e.op = "Select" -> Det(e, SelectSem(R, e.a.cols))
@@ -97,6 +108,9 @@ JudgeOp(e, Fr, Gr) ==
          IF R.err \/ ~HasCol(R, e.a.col) THEN PlainU("unspec", TRUE)
          ELSE [Plain(e.vcells = ColOf(R, e.a.col).cells) EXCEPT !.newvd = <<e.vdig>>]
     [] OTHER -> JudgeIO(e, Fr, Gr)
+
+JudgeOp(e, Fr, Gr) ==
+  IF e.recv >= 0 /\ e.op \notin AmbSafeOps /\ AmbFrame(Fr[e.recv + 1]) THEN AmbRes(e) ELSE JudgeOp1(e, Fr, Gr)
 
 Judge(e, Fr, Gr) == LET j == JudgeOp(e, Fr, Gr) IN [j EXCEPT !.ok = @ /\ CallsOK(e, Fr, Gr)]
 =============================================================================
